@@ -355,6 +355,21 @@ func TestE1Codec(t *testing.T) {
 			if err != nil || m2.LastIncludedIndex != md.LastIncludedIndex || m2.LastIncludedTerm != md.LastIncludedTerm || !bytes.Equal(m2.Configuration, md.Configuration) {
 				rep.Add(Finding{Kind: "oracle", Property: "C19", Oracle: "snapshot metadata read back differs from what was written", Case: mline, Impl: string(mb)})
 			}
+			// differential: the model writes the same bytes and reads the real bytes
+			carg := "nil"
+			if md.Configuration != nil {
+				carg = hx(md.Configuration)
+			}
+			sentM := fmt.Sprintf("li=%d lt=%d cfg=%s", md.LastIncludedIndex, md.LastIncludedTerm, carg)
+			encM, _ := drv.Ask("ENC | META | " + sentM)
+			if encM != hx(mb) {
+				rep.Add(Finding{Kind: "mismatch", Property: "C19", Case: mline, Impl: string(mb), Model: encM, Diff: []string{"encode: metadata bytes differ"}})
+			}
+			decM, _ := drv.Ask("DEC | META | " + hx(mb))
+			if decM != sentM {
+				rep.Add(Finding{Kind: "mismatch", Property: "C19", Case: mline, Impl: sentM, Model: decM, Diff: []string{"decode: the model reads the metadata file differently"}})
+			}
+			rep.Hit("METADATA-differential")
 		}
 	}
 }
